@@ -105,6 +105,10 @@ def collect(tree):
     out['<defs>'] = {q: def_skeletons(fn) for q, fn, _ in qualnames(tree)}
     out['<attrs>'] = {c.name: sorted(self_attrs(c)) for c in tree.body
                       if isinstance(c, ast.ClassDef)}
+    out['<classattrs>'] = {c.name: sorted(
+        t.id for st in c.body if isinstance(st, ast.Assign)
+        for t in st.targets if isinstance(t, ast.Name))
+        for c in tree.body if isinstance(c, ast.ClassDef)}
     return out
 
 
@@ -1018,13 +1022,127 @@ def merge_list_appends(tree, ref):
     return tree
 
 
+def fold_new_class_constants(tree, ref):
+    """A class attribute that the reference class does not have, bound once
+    in the class body to a literal (tuple / list of constants, a string, a
+    number) and never stored to, is replaced by the literal where the
+    methods read it as `self.X` / `cls.X` / `Class.X`."""
+    if ref is None or '<attrs>' not in ref:
+        return tree
+    for c in tree.body:
+        if not isinstance(c, ast.ClassDef):
+            continue
+        known_cls = set()
+        for q in ref:
+            if q.startswith(c.name + '.'):
+                known_cls.add(q)
+        if not known_cls:
+            continue
+        lits = {}
+        for st in c.body:
+            if isinstance(st, ast.Assign) and len(st.targets) == 1 and \
+                    isinstance(st.targets[0], ast.Name) and all(
+                        isinstance(x, (ast.Constant, ast.Tuple, ast.List,
+                                       ast.Load, ast.Set, ast.Dict))
+                        for x in ast.walk(st.value)):
+                lits[st.targets[0].id] = st.value
+        # reference class-level names are not listed separately: a name is
+        # new if no method of the reference class knows it as an attribute
+        # and it is private
+        new = {k: v for k, v in lits.items() if k.startswith('_') and
+               k not in set(ref['<attrs>'].get(c.name, [])) and
+               k not in ref.get('<classattrs>', {}).get(c.name, [])}
+        if not new:
+            continue
+        stored = set()
+        for n in ast.walk(c):
+            if isinstance(n, ast.Attribute) and isinstance(
+                    n.ctx, (ast.Store, ast.Del)) and n.attr in new:
+                stored.add(n.attr)
+        new = {k: v for k, v in new.items() if k not in stored}
+
+        class R(ast.NodeTransformer):
+            def visit_Attribute(self, n):
+                self.generic_visit(n)
+                if isinstance(n.ctx, ast.Load) and n.attr in new and \
+                        isinstance(n.value, ast.Name) and n.value.id in (
+                            'self', 'cls', c.name):
+                    return ast.copy_location(copy.deepcopy(new[n.attr]), n)
+                return n
+        for m in c.body:
+            if isinstance(m, ast.FunctionDef):
+                R().visit(m)
+    ast.fix_missing_locations(tree)
+    return tree
+
+
+def inline_new_nested(tree, ref):
+    """A function defined INSIDE a known function under a name that function
+    did not have (a new local closure), simple enough to be inlined, is
+    inlined at its statement-level call sites in that function."""
+    if ref is None:
+        return tree
+    counter = [1000]
+    for q, fn, cls in qualnames(tree):
+        base = ref.get(q) or ref.get(q.split('#')[0])
+        if base is None:
+            continue
+        nested = [n for n in fn.body if isinstance(n, ast.FunctionDef) and
+                  n.name not in base and _inlinable(n, False)]
+        if not nested:
+            continue
+        byname = {n.name: n for n in nested}
+        loc = local_names(fn)
+
+        def do_block(stmts):
+            out = []
+            for st in stmts:
+                if isinstance(st, ast.FunctionDef):
+                    out.append(st)
+                    continue
+                for fld in ('body', 'orelse', 'finalbody'):
+                    v = getattr(st, fld, None)
+                    if isinstance(v, list) and v and isinstance(
+                            v[0], ast.stmt):
+                        setattr(st, fld, do_block(v))
+                for h in getattr(st, 'handlers', []) or []:
+                    h.body = do_block(h.body)
+                call = None
+                if isinstance(st, ast.Expr) and isinstance(st.value,
+                                                           ast.Call):
+                    call = st.value
+                elif isinstance(st, (ast.Assign, ast.Return)) and \
+                        isinstance(st.value, ast.Call):
+                    call = st.value
+                if call is not None and isinstance(call.func, ast.Name) \
+                        and call.func.id in byname:
+                    ex = _expand(byname[call.func.id], call, False, loc,
+                                 counter, st)
+                    if ex is not None:
+                        body, res = ex
+                        if isinstance(st, ast.Expr):
+                            out.extend(body)
+                            continue
+                        if res is not None:
+                            out.extend(body)
+                            out.extend(_assign_result(st, res))
+                            continue
+                out.append(st)
+            return out
+        fn.body = do_block(fn.body)
+    ast.fix_missing_locations(tree)
+    return tree
+
+
 def normalise(tree, rel):
     ref = known().get(rel)
     if ref is None:
         return tree
     fold_new_module_constants(tree, ref)
+    fold_new_class_constants(tree, ref)
     specialise_new_params(tree, ref)
     inline_new_helpers(tree, ref)
+    inline_new_nested(tree, ref)
     merge_list_appends(tree, ref)
     propagate_new_temps(tree, ref)
     return tree
